@@ -7,29 +7,48 @@
    9d1ff3e4 (older() fails under tx version < 2), b1ce3b38 (Schnorr hash type byte 0x00) and
    ae1c5ffa (from_txdata commits to the script bytes on the stack).
    Specification: Script/Exec.v ([exec], [accepts]) on the ENCODED miniscript ([enc], Ms/Ast.v);
-   Script/ExecTrace.v ([exec_tr], [checks], [accepts_tr]): the conditions the executed path verified.
+   Script/ExecTrace.v ([exec_tr], [checks], [accepts_tr]): the conditions the executed path verified;
+   Ms/DenotSpec.v ([R], [Rsat]) + Theorem B (Properties/TheoremB.v): exactly which stacks the
+   encoded script accepts.
 
-   FULL STATEMENTS and what is proved
-     interp_sound      : type_of m = ROk t -> base t = B ->
-                         interp e ke kp m (astack_of_items items) = IAccept cs ->
-                         accepts e (enc ke m) (rev items) = true
-       interp_sound_partial: proved with NO hypothesis on lock time / sequence / version (the two side
-       conditions of the earlier version are gone: before the repairs the unconditional statement
-       was refuted, see notes/C13.md).  What is still missing for the bare statement: [num_facts]
-       (arithmetic facts about script numbers, the same hypotheses as C01), [keys_ok] (key
-       encodings acceptable, the empty signature never verifies), [iwf] (what the constructors
-       guarantee: lock values, threshold bounds, signature version of multi / multi_a), stack
-       items below 2^31 bytes, and [icover]: sortedmulti / sortedmulti_a nodes, which decoding a
-       script never produces.
-     constraints_exact : ... -> accepts_tr e (enc ke m) (rev items) = Some (map check_of cs)
-       constraints_exact_partial: same hypotheses as interp_sound_partial.
+   FULL STATEMENT and what is proved
+     interp_iff        : type_of m = ROk t -> base t = B ->
+                         ((exists cs, interp e ke kp m (astack_of_items items) = IAccept cs)
+                          <-> accepts e (enc ke m) (rev items) = true)
+       proved under: [env_fit] (key encodings: the script's keys acceptable, the interpreter's key
+       parser = the acceptable encodings, no key is empty or the byte 01; neither the empty string
+       nor the byte 01 is a valid signature), [wf] (what the constructors guarantee, as Theorem A/B),
+       [icover] (no sortedmulti / sortedmulti_a node: decoding a script never produces them),
+       [isel] (wherever the fragment has a d: or or_i, the signature version has MINIMALIF -- i.e.
+       it is not the base version), stack items below 2^31 bytes.  Script-number arithmetic is no
+       longer a hypothesis.
+       =>  interp_sound_partial: needs only [keys_ok], [iwf], [icover], the item bound; no [isel],
+           no hypothesis on lock time / sequence / version.
+       <=  interp_complete: EVERY stack the encoded script accepts -- not only the entries of the
+           specification's table: any non-preimage as hash dissatisfaction inside or_d / andor /
+           thresh, and_b dissatisfied on one side, or_b satisfied on both, over-satisfied thresh or
+           multi_a as a dissatisfaction, j: with X dissatisfied, pk_h with any key of the right
+           hash, every CHECKMULTISIG matching -- is accepted by the interpreter.  multi and multi_a
+           included.  interp_complete_denot is the same on [Rsat].
+       interp_complete_base_selector_refuted: [isel] cannot be dropped.  Under the base signature
+           version (P2SH / bare) the script takes ANY true value as IF selector, the evaluator only
+           the byte 01: all other hypotheses hold, the script accepts <sig> 02, the evaluator
+           rejects it.  (A false REJECT, not a false accept.)  isel_is_language_rule: [isel] is the
+           rule "no d: / or_i without MINIMALIF", which the library's Legacy / BareCtx contexts
+           enforce at decoding: from_txdata refuses such a script before evaluation, so the real
+           interpreter rejects EVERY spend of e.g. sh(or_i(pk(A),pk(B))) (notes/C13.md).
+     constraints_exact : constraints_exact_iff: on every stack the script accepts, the interpreter
+       accepts AND the checks of the executed path (signature, preimage, lock-time checks, in order)
+       are exactly the constraints it reports.  constraints_exact_partial is the forward direction
+       under the hypotheses of interp_sound_partial.
        constraints_genuine_partial: every yielded constraint holds; all ms, no hypothesis.
      interp_policy     : proved in full (all fragments, no hypothesis).
-     interp_complete   : interp_complete_partial: every entry of the specification's satisfaction
-       table is accepted (multisig leaves excepted); "satisfier output is a table entry" is C01's tie.
+     interp_complete_table: every entry of the specification's satisfaction table is accepted
+       (proved directly against the table, Proofs/InterpComplete.v; kept because its hypotheses are
+       about the caller's assets, not about the script's execution, and it needs no [isel]).
      interp_is_recursive: work-list evaluator = recursive evaluator, every ms and stack, no INoFuel.
    Each clause is additionally checked per run by the oracle (tools/props/c13.py). *)
-From Verif Require Import Exec ExecTrace Ser Ast Types TypeCheck SatSpec TheoremA InterpModel InterpRefine InterpSound InterpWitness InterpComplete InterpMain InterpPolicy InterpGenuine.
+From Verif Require Import Exec ExecTrace Ser Ast Types TypeCheck SatSpec TheoremA DenotSpec InterpModel InterpRefine InterpSound InterpWitness InterpComplete InterpDenot InterpMain InterpPolicy InterpGenuine.
 Local Open Scope N_scope.
 
 Theorem interp_is_recursive :
@@ -38,15 +57,75 @@ Theorem interp_is_recursive :
 Proof. exact interp_eq_rec. Qed.
 Print Assumptions interp_is_recursive.
 
+(* the interpreter accepts exactly the stacks the encoded script accepts *)
+Theorem interp_iff :
+  forall (e : env) (ke : keyenv) (kp : bytes -> bool),
+    env_fit e ke kp ->
+    forall (m : ms) (t : ty) (items : list bytes),
+      type_of m = ROk t -> c_base (t_corr t) = BB -> wf e ke m -> icover m -> isel e m -> items_small items ->
+      ((exists cs, interp e ke kp m (astack_of_items items) = IAccept cs) <-> accepts e (enc ke m) (rev items) = true).
+Proof. exact interp_iff_env. Qed.
+Print Assumptions interp_iff.
+
+(* => alone: fewer hypotheses (no [isel], one direction of the key-parser agreement, no statement
+   about the byte 01), none on lock time / sequence / version *)
 Theorem interp_sound_partial :
   forall (e : env) (ke : keyenv) (kp : bytes -> bool),
-    num_facts -> keys_ok e ke kp ->
+    keys_ok e ke kp ->
     forall (m : ms) (t : ty) (items : list bytes) (cs : list constr),
       type_of m = ROk t -> c_base (t_corr t) = BB -> iwf e m -> icover m -> items_small items ->
       interp e ke kp m (astack_of_items items) = IAccept cs ->
       accepts e (enc ke m) (rev items) = true.
 Proof. exact interp_sound_env. Qed.
 Print Assumptions interp_sound_partial.
+
+(* <= alone: completeness against the Script semantics.  [w]: head = top of the stack; the
+   interpreter is given the items bottom first.  No bound on the item sizes. *)
+Theorem interp_complete :
+  forall (e : env) (ke : keyenv) (kp : bytes -> bool),
+    env_fit e ke kp ->
+    forall (m : ms) (t : ty) (w : wit),
+      type_of m = ROk t -> c_base (t_corr t) = BB -> wf e ke m -> icover m -> isel e m ->
+      accepts e (enc ke m) w = true -> exists cs, interp e ke kp m (astack_of_items (rev w)) = IAccept cs.
+Proof. exact interp_complete_env. Qed.
+Print Assumptions interp_complete.
+
+(* the same on the relation of Theorem B *)
+Theorem interp_complete_denot :
+  forall (e : env) (ke : keyenv) (kp : bytes -> bool),
+    env_fit e ke kp ->
+    forall (m : ms) (t : ty) (w : wit),
+      type_of m = ROk t -> c_base (t_corr t) = BB -> wf e ke m -> icover m -> isel e m ->
+      Rsat e ke m w -> exists cs, interp e ke kp m (astack_of_items (rev w)) = IAccept cs.
+Proof. exact interp_complete_Rsat. Qed.
+Print Assumptions interp_complete_denot.
+
+(* [isel] is needed: base signature version, or_i, selector 02 *)
+Theorem interp_complete_base_selector_refuted :
+  exists (e : env) (ke : keyenv) (kp : bytes -> bool) (m : ms) (t : ty) (w : wit),
+    env_fit e ke kp /\ type_of m = ROk t /\ c_base (t_corr t) = BB /\ wf e ke m /\ icover m /\
+    items_small (rev w) /\ e_sv e = SvBase /\
+    accepts e (enc ke m) w = true /\
+    forall cs, interp e ke kp m (astack_of_items (rev w)) <> IAccept cs.
+Proof. exact InterpMain.interp_complete_base_selector_refuted. Qed.
+Print Assumptions interp_complete_base_selector_refuted.
+
+(* what [isel] is: the language rule "no d: / or_i under a signature version without MINIMALIF",
+   which the library's pre-segwit contexts enforce when decoding (Legacy / BareCtx:
+   allow_or_i = allow_dup_if = false; Ms/ValidateModel.v is C12's model of ValidationParams).
+   from_txdata decodes with decode_consensus in the output's context, so the evaluator never sees
+   a script violating [isel]: spends of sh(or_i(..)) are refused as undecodable, whatever the stack
+   (reproduced by the check: verdict err:from:decode; the model run on the permissively decoded
+   script rejects the non-minimal selectors as the refutation says). *)
+Theorem isel_is_language_rule :
+  forall (e : env) (m : ms), isel e m <-> lang_ok (e_sv e) m = true.
+Proof. exact isel_language_rule. Qed.
+Print Assumptions isel_is_language_rule.
+
+Example language_rule_is_context_rule :
+  forall c, ValidateModel.allow_or_i (ValidateModel.ctx_consensus c) = minimalif (ctx_sv c) /\
+            ValidateModel.allow_dup_if (ValidateModel.ctx_consensus c) = minimalif (ctx_sv c).
+Proof. exact context_if_rule. Qed.
 
 (* the reported constraints satisfy the lifted policy: [psat ke cs m] is the truth value of
    lift(m) in the world where exactly the reported constraints hold.  Every fragment, every
@@ -64,13 +143,26 @@ Print Assumptions interp_policy.
    constraints, in the same order ([check_of] forgets the key hash of a PublicKeyHash constraint). *)
 Theorem constraints_exact_partial :
   forall (e : env) (ke : keyenv) (kp : bytes -> bool),
-    num_facts -> keys_ok e ke kp ->
+    keys_ok e ke kp ->
     forall (m : ms) (t : ty) (items : list bytes) (cs : list constr),
       type_of m = ROk t -> c_base (t_corr t) = BB -> iwf e m -> icover m -> items_small items ->
       interp e ke kp m (astack_of_items items) = IAccept cs ->
       accepts_tr e (enc ke m) (rev items) = Some (map check_of cs).
 Proof. exact interp_exact_env. Qed.
 Print Assumptions constraints_exact_partial.
+
+(* ... starting from the script: on every stack the script accepts the interpreter accepts and
+   reports exactly the checks of that execution *)
+Theorem constraints_exact_iff :
+  forall (e : env) (ke : keyenv) (kp : bytes -> bool),
+    env_fit e ke kp ->
+    forall (m : ms) (t : ty) (items : list bytes),
+      type_of m = ROk t -> c_base (t_corr t) = BB -> wf e ke m -> icover m -> isel e m -> items_small items ->
+      accepts e (enc ke m) (rev items) = true ->
+      exists cs, interp e ke kp m (astack_of_items items) = IAccept cs /\
+                 accepts_tr e (enc ke m) (rev items) = Some (map check_of cs).
+Proof. exact interp_iff_exact_env. Qed.
+Print Assumptions constraints_exact_iff.
 
 (* every constraint yielded -- by an accepted or a rejected run, for every miniscript -- was
    really checked and holds ([cvalid]: the signature verifies for that key, the preimage has 32
@@ -85,21 +177,21 @@ Theorem constraints_genuine_partial :
 Proof. exact interp_constraints_genuine. Qed.
 Print Assumptions constraints_genuine_partial.
 
-(* interp_complete, on the specification's satisfaction table (coq/Ms/SatSpec.v: the entries the
-   library's satisfier answers from, C01/C02): every table satisfaction of a well-typed B script
-   is accepted.  Stack order: a table witness has its head on top, the interpreter is given the
-   items bottom first.  [assets_fit]: the caller's assets are genuine w.r.t. the environment
-   (C01's [assets_ok], which includes that the lock times held are met by the transaction), no
+(* on the specification's satisfaction table (coq/Ms/SatSpec.v: the entries the library's
+   satisfier answers from, C01/C02): every table satisfaction of a well-typed B script is
+   accepted.  [assets_fit]: the caller's assets are genuine w.r.t. the environment (C01's
+   [assets_ok], which includes that the lock times held are met by the transaction), no
    signature or key is the one-byte string 01, the script's keys parse, the empty signature
-   never verifies.  Multisig leaves and raw_pk_h excluded ([ccover]). *)
-Theorem interp_complete_partial :
+   never verifies.  Multisig leaves and raw_pk_h excluded ([ccover]); [isel] not needed (a table
+   selector is 01 / empty). *)
+Theorem interp_complete_table :
   forall (e : env) (ke : keyenv) (kp : bytes -> bool) (A : assets),
-    num_facts -> assets_fit e ke kp A ->
+    assets_fit e ke kp A ->
     forall (m : ms) (t : ty) (w : wit),
       type_of m = ROk t -> c_base (t_corr t) = BB -> wf e ke m -> ccover m ->
       In w (all_sat ke A m) -> exists cs, interp e ke kp m (astack_of_items (rev w)) = IAccept cs.
 Proof. exact interp_complete_sat. Qed.
-Print Assumptions interp_complete_partial.
+Print Assumptions interp_complete_table.
 
 (* the two former counter-examples: the repaired evaluator rejects them, as the Script semantics
    does; one step away (non-final sequence, version 2) both accept *)
@@ -121,6 +213,15 @@ Example older_tx_version_1_agrees :
   /\ accepts (toy_env 0 5 2) (enc toy_ke m_older) (rev [toy_sig]) = true.
 Proof. exact older_tx_version_1_rejected. Qed.
 
+(* the refutation, concretely: or_i(pk(0),pk(1)), stack <sig> 02.  Base version: script accepts,
+   interpreter rejects; witness v0 (MINIMALIF): the script rejects it as well; selector 01: accepted *)
+Example base_selector_example :
+  accepts (fit_env SvBase 0 0 2) (enc toy_ke m_ori) (rev [toy_sig; [2]]) = true
+  /\ interp (fit_env SvBase 0 0 2) toy_ke shape_key m_ori (astack_of_items [toy_sig; [2]]) = IReject EElemPush []
+  /\ accepts (fit_env SvWitnessV0 0 0 2) (enc toy_ke m_ori) (rev [toy_sig; [2]]) = false
+  /\ interp (fit_env SvBase 0 0 2) toy_ke shape_key m_ori (astack_of_items [toy_sig; [1]]) = IAccept [CsPk [2; 0] toy_sig].
+Proof. exact base_selector_witness. Qed.
+
 (* non-vacuity of interp_sound_partial's hypotheses: an environment, a well-typed covered
    miniscript and a stack on which the interpreter accepts *)
 Example C13_nonvacuous :
@@ -129,3 +230,12 @@ Example C13_nonvacuous :
   items_small [toy_sig] /\
   interp (toy_env 100 4294967294 2) toy_ke toy_kp m_after (astack_of_items [toy_sig]) = IAccept [CsPk [2; 0] toy_sig; CsAfter 10].
 Proof. exact sound_nonvacuous. Qed.
+
+(* non-vacuity of interp_iff / interp_complete: all hypotheses hold together and both sides are
+   true, on a satisfaction that is NOT in the specification's table (or_b, both sides satisfied) *)
+Example interp_iff_nonvacuous :
+  exists (e : env) (ke : keyenv) (kp : bytes -> bool) (m : ms) (t : ty) (items : list bytes),
+    env_fit e ke kp /\ type_of m = ROk t /\ c_base (t_corr t) = BB /\ wf e ke m /\ icover m /\ isel e m /\
+    items_small items /\ accepts e (enc ke m) (rev items) = true /\
+    interp e ke kp m (astack_of_items items) = IAccept [CsPk [2; 0] toy_sig; CsPk [2; 1] toy_sig].
+Proof. exact iff_nonvacuous. Qed.
